@@ -12,6 +12,11 @@
 
 static void setpt(SM9_Z256_POINT *P, const uint8_t *b, size_t n, int *bad) { if (n == 65) { if (sm9_z256_point_from_uncompressed_octets(P, b) != 1) *bad = 1; } else sm9_z256_point_set_infinity(P); }
 static void settw(SM9_Z256_TWIST_POINT *P, const uint8_t *b, size_t n, int *bad) { if (n == 129) { if (sm9_z256_twist_point_from_uncompressed_octets(P, b) != 1) *bad = 1; } else sm9_z256_twist_point_set_infinity(P); }
+// another Jacobian representative of the same point: (X l^2, Y l^3, Z l) for a non-zero field element l given by the script (lamP / lamQ)
+static void rescale_pt(SM9_Z256_POINT *P, const uint8_t *l32, size_t n) { if (n != 32 || sm9_z256_point_is_at_infinity(P) == 1) return; sm9_z256_t l, l2, l3; sm9_z256_from_bytes(l, l32); sm9_z256_modp_to_mont(l, l);
+	sm9_z256_modp_mont_mul(l2, l, l); sm9_z256_modp_mont_mul(l3, l2, l); sm9_z256_modp_mont_mul(P->X, P->X, l2); sm9_z256_modp_mont_mul(P->Y, P->Y, l3); sm9_z256_modp_mont_mul(P->Z, P->Z, l); }
+static void rescale_tw(SM9_Z256_TWIST_POINT *P, const uint8_t *l64, size_t n) { if (n != 64 || sm9_z256_twist_point_is_at_infinity(P) == 1) return; sm9_z256_fp2_t l, l2, l3; if (sm9_z256_fp2_from_bytes(l, l64) != 1) return;
+	sm9_z256_fp2_sqr(l2, l); sm9_z256_fp2_mul(l3, l2, l); sm9_z256_fp2_mul(P->X, P->X, l2); sm9_z256_fp2_mul(P->Y, P->Y, l3); sm9_z256_fp2_mul(P->Z, P->Z, l); }
 static void outpt(const SM9_Z256_POINT *R) { uint8_t o[65]; int inf = sm9_z256_point_is_at_infinity(R) == 1; vt_int("inf", inf); if (!inf) sm9_z256_point_to_uncompressed_octets(R, o); vt_hex("r", o, inf ? 0 : 65); }
 static void outtw(const SM9_Z256_TWIST_POINT *R) { uint8_t o[129]; int inf = sm9_z256_twist_point_is_at_infinity(R) == 1; vt_int("inf", inf); if (!inf) sm9_z256_twist_point_to_uncompressed_octets(R, o); vt_hex("r", o, inf ? 0 : 129); }
 static int sign_master(SM9_SIGN_MASTER_KEY *m, const uint8_t *ks) { sm9_z256_from_bytes(m->ks, ks); sm9_z256_twist_point_mul_generator(&m->Ppubs, m->ks); return 1; }
@@ -95,6 +100,7 @@ int main(int argc, char **argv)
 			sm9_z256_fp12_to_bytes(r, out); vt_int("c", c); vt_hex("r", out, 384);
 		} else if (!strncmp(op, "point_", 6)) {
 			SM9_Z256_POINT P, Q, R; sm9_z256_t k = {0}; setpt(&P, Pb, pl, &bad); setpt(&Q, Qb, ql, &bad); sm9_z256_point_set_infinity(&R); if (kl == 32) sm9_z256_from_bytes(k, kb);
+			{ size_t ll; uint8_t *lp = kv_hex(&kv, "lamP", &ll); if (!bad && lp) rescale_pt(&P, lp, ll); lp = kv_hex(&kv, "lamQ", &ll); if (!bad && lp) rescale_pt(&Q, lp, ll); }
 			const char *o = op + 6; int haspt = 1;
 			if (bad) ; else if (!strcmp(o, "dbl")) sm9_z256_point_dbl(&R, &P); else if (!strcmp(o, "neg")) sm9_z256_point_neg(&R, &P); else if (!strcmp(o, "add")) sm9_z256_point_add(&R, &P, &Q);
 			else if (!strcmp(o, "sub")) sm9_z256_point_sub(&R, &P, &Q); else if (!strcmp(o, "mul")) sm9_z256_point_mul(&R, k, &P); else if (!strcmp(o, "mul_generator")) sm9_z256_point_mul_generator(&R, k);
@@ -105,6 +111,7 @@ int main(int argc, char **argv)
 			vt_int("c", c); if (haspt && !bad) outpt(&R);
 		} else if (!strncmp(op, "twist_", 6)) {
 			SM9_Z256_TWIST_POINT P, Q, R; sm9_z256_t k = {0}; settw(&P, Pb, pl, &bad); settw(&Q, Qb, ql, &bad); sm9_z256_twist_point_set_infinity(&R); if (kl == 32) sm9_z256_from_bytes(k, kb);
+			{ size_t ll; uint8_t *lp = kv_hex(&kv, "lamP", &ll); if (!bad && lp) rescale_tw(&P, lp, ll); lp = kv_hex(&kv, "lamQ", &ll); if (!bad && lp) rescale_tw(&Q, lp, ll); }
 			const char *o = op + 6; int haspt = 1;
 			if (bad) ; else if (!strcmp(o, "dbl")) sm9_z256_twist_point_dbl(&R, &P); else if (!strcmp(o, "neg")) sm9_z256_twist_point_neg(&R, &P); else if (!strcmp(o, "add")) sm9_z256_twist_point_add(&R, &P, &Q);
 			else if (!strcmp(o, "sub")) sm9_z256_twist_point_sub(&R, &P, &Q); else if (!strcmp(o, "add_full")) sm9_z256_twist_point_add_full(&R, &P, &Q);
